@@ -377,6 +377,18 @@ def run(ctx):
     err = run_jobs(ctx, "sa.checks.c08", "_job", jobs, labels)
     if err is not None:
         raise AnalysisError(err)
+    # the material arrays the step works on: each object's own xx / yy / zz entry lands in the component of the same
+    # index, for permittivity, permeability and both conductivities alike (C28's painting rule on its tiered scenes) —
+    # a slot filled from another property or another axis breaks the relabelling symmetry of every later step
+    from . import c28
+
+    n0 = len(ctx.obligations)
+    for scene in c28._scenes():
+        if scene[0] in ("magnetic-lossless-over-lossy", "tiers:eps3-mu9-se1-sm3", "tiers:eps1-mu3-se9-sm1"):
+            c28._scene_job(ctx, scene)
+    for o in ctx.obligations[n0:]:
+        o.rule = "R8.7"
+    ctx.require_count("R8.7 painting obligations", len(ctx.obligations) - n0, 9)
     ctx.note(f"{n} single-step interpretations on axis-invariant scenes")
     ctx.require_count("R8.5 TFSF cases", sum(1 for o in ctx.obligations if o.rule == "R8.5"), 20)
     ctx.require_count("C08", len(ctx.obligations), 80)
